@@ -2,7 +2,7 @@
    Pointer level (Layer B): the owning iterators move entries out of their buckets; the model tracks the
    ownership of every payload, and reading or dropping a payload that is not owned is a fault.
    Abstract level (Layer A): the repaired Drain empties the cache when it is created. *)
-Require Import LruV.B.TakingB LruV.A.LedgerA LruV.B.StepB LruV.B.RefineLemmas LruV.B.CloneB LruV.B.TotalB.
+Require Import LruV.B.TakingB LruV.A.LedgerA LruV.B.StepB LruV.B.RefineLemmas LruV.B.CloneB LruV.B.TotalB LruV.B.RefineB LruV.B.ReachB LruV.A.InvA.
 
 (* Any run of a taking iterator (any pattern, any prefix, from either end) never reads a moved-out or
    uninitialised payload, moves out exactly the buckets it yielded, each once, and leaves every other
@@ -51,9 +51,27 @@ Proof. exact drop_refines. Qed.
 Theorem C17_into_iter_no_fault : forall b kind pat f, RIg (bg b) -> exists r, bB_into_iter b kind pat f = Some r.
 Proof. exact into_iter_total. Qed.
 
+(* "a cache that was being drained remains a valid, usable cache", at pointer level and for every point of the drain's consumption:
+   from any reachable state of the heap-of-nodes model, a drain consumed by ANY pattern of next / next_back and then leaked with
+   mem::forget leaves a state that is again reachable (so every theorem about reachable states, and every further operation,
+   applies to it), coherent, empty, with size 0 — and nothing was dropped by the call: the entries not yielded are leaked, never
+   dropped twice *)
+Theorem C17_leaked_drain_pointer_level : forall E VS, 0 < E -> VS <= E -> forall b pat oB b' out evs,
+  ReachB E VS b -> stepB E VS b (DrainOp pat FForget) oB = Some (b', out, evs) ->
+  ReachB E VS b' /\ RIb b' /\ ents (absB b') = [] /\ cur (absB b') = 0 /\ e_dropped evs = [].
+Proof.
+  intros E VS HE HV b pat oB b' out evs HR Hstep.
+  assert (HR' : ReachB E VS b') by (change b' with (fst (fst (b', out, evs))); apply (reachb_step E VS b (DrainOp pat FForget) oB (b', out, evs) HR I Hstep)).
+  destruct (reachB_step E VS HE HV b _ oB b' out evs HR Hstep) as (HA & HRI & _).
+  split; [exact HR'|]. split; [exact HRI|]. cbn [stepA] in HA. destruct (take_ends (ents (absB b)) pat) as [outs rest].
+  pose proof (f_equal (fun r => match r with Some (c, _, ev) => (ents c, cur c, e_dropped ev) | None => ([], 0, []) end) HA) as H0.
+  cbn [ents cur set_ents e_dropped] in H0. injection H0 as H1 H2 H3. split; [symmetry; exact H1|]. split; [symmetry; exact H2|symmetry; exact H3].
+Qed.
+
 Print Assumptions C17_taking_run.
 Print Assumptions C17_drain_forget.
 Print Assumptions C17_into_iter_forget.
 Print Assumptions C17_into_iter_pointer_level.
 Print Assumptions C17_drop_pointer_level.
 Print Assumptions C17_into_iter_no_fault.
+Print Assumptions C17_leaked_drain_pointer_level.
